@@ -231,6 +231,12 @@ func c35Gen(r *rand.Rand, n int, tier string) []c35In {
 		}
 	}
 	out = append(out, c35In{Kind: "skip", Hex: "ffffffff00000000"}, c35In{Kind: "skip", Hex: "ffffffff0100000000000000"})
+	// flatbuffers Table.Offset boundaries: vtable size 10 / 11 / 12 around slot 10, and 4..7-byte metadata
+	for _, vsz := range []string{"0a", "0b", "0c"} {
+		out = append(out, c35In{Kind: "skip", Hex: "ffffffff20000000" + "10000000" + vsz + "00" + "1000" + "000000000000" + "0800" + "0c000000" + "00000000" + "0300000000000000" + "010203"})
+	}
+	out = append(out, c35In{Kind: "skip", Hex: "ffffffff0400000000000000"}, c35In{Kind: "skip", Hex: "ffffffff06000000020000000000" + "0000"},
+		c35In{Kind: "skip", Hex: "ffffffff0300000000000000"}, c35In{Kind: "skip", Hex: "ffffffff0400000004000000"})
 	// --- random streams --------------------------------------------------------
 	for len(out) < n {
 		switch k := r.Intn(100); {
@@ -476,6 +482,13 @@ func c35RunPtr(in c35In) CaseOut {
 	body := spec.build()
 	pb := array.NewRecordBatchWithMetadata(body.Schema(), body.Columns(), body.NumRows(), arrow.NewMetadata(keys, vals))
 	name := seg.Name()
+	// input fact about the segment contents: are the 4 bytes after the pointer schema's slot zero?
+	// (a stripped region extended past its slot is followed by the synthesized EOS, so the bytes
+	// after the record-batch message must read as an end-of-stream word for the framing check)
+	tailZero := false
+	if tb := vgirpc.VerifC35Bytes(seg, nums["end"+strconv.Itoa(in.SchemaOf)], 4); len(tb) == 4 {
+		tailZero = tb[0] == 0 && tb[1] == 0 && tb[2] == 0 && tb[3] == 0
+	}
 	var useSeg *vgirpc.ShmSegment
 	if !in.NilSeg {
 		useSeg = seg
@@ -499,9 +512,9 @@ func c35RunPtr(in c35In) CaseOut {
 		}
 	}
 	js := strconv.Itoa(in.SchemaOf)
-	slots := List([]string{Pair(Z(int64(nums["off"+js])), Z(int64(nums["len"+js])))})
+	slots := List([]string{"(" + Z(int64(nums["off"+js])) + ", " + Z(int64(nums["len"+js])) + ", " + Bool(tailZero) + ")"})
 	coqIn := App("C35.IPtr", App("C35.Build_ptr_case", Bool(!in.NilSeg), Bool(in.Closed), Z(int64(size)), B(name),
-		Z(int64(in.Rows)), c35MD(keys, vals), slots))
+		Z(int64(in.Rows)), c35MD(keys, vals), ListOf(spec.types(), func(t *c35Ty) string { return t.coq() }), slots))
 	coqObs := App("C35.OPtr", ro.coq(), Bool(after))
 	tags := []string{"ptr", "ptr-" + ro.Kind, "layout-" + c35Layout(body.Schema())}
 	if in.NilSeg {
